@@ -4,4 +4,25 @@ EXTENDS Glob, Json
 GenInit == /\ p \in Patterns /\ t = <<>> /\ wi = 0 /\ ti = 0 /\ aw = 0 /\ at = 0 /\ res = "gen"
 GenNext == FALSE /\ UNCHANGED vars
 GenInv == PrintT(ToJson([p |-> p, m |-> { x \in Texts : Match(p, x) }]))
+
+(* Self-overlapping literals beyond the exhaustive bound (the property's "text contains repeats of the
+   literal parts"): for every literal L the texts are concatenations of prefixes of L (partial occurrences
+   that overlap the real one), the patterns anchor L with stars on either side. MatchDP is the polynomial
+   formulation proved equal to Match on a bounded space in Trace_Glob (ASSUME LemmaDP). *)
+CONSTANT MaxL
+RECURSIVE Pos(_, _, _)
+Pos(q, x, k) ==
+  IF k = 0 THEN {0}
+  ELSE LET S == Pos(q, x, k - 1) IN
+       IF q[k] = STAR THEN { j \in 0..Len(x) : \E i \in S : i <= j }
+       ELSE { i + 1 : i \in { i \in S : i < Len(x) /\ x[i + 1] = q[k] } }
+MatchDP(q, x) == Len(x) \in Pos(q, x, Len(q))
+Prefixes(L) == { SubSeq(L, 1, k) : k \in 1..Len(L) }
+KmpTexts(L) == { x \o y : x \in Prefixes(L), y \in Prefixes(L) } \cup { x \o L : x \in Prefixes(L) }
+               \cup { x \o y \o L : x \in Prefixes(L), y \in Prefixes(L) }
+KmpPats(L) == { <<STAR>> \o L \o <<STAR>>, <<STAR>> \o L, L \o <<STAR>>, <<STAR>> \o L \o <<STAR>> \o L,
+                <<Head(L)>> \o <<STAR>> \o L \o <<STAR>> }
+GenKmpInit == /\ p \in { L \in SeqsUpTo(Lits, MaxL) : Len(L) >= 2 }
+              /\ t = <<>> /\ wi = 0 /\ ti = 0 /\ aw = 0 /\ at = 0 /\ res = "gen"
+GenKmpInv == PrintT(ToJson([l |-> p, cases |-> { [p |-> q, t |-> x, m |-> MatchDP(q, x)] : q \in KmpPats(p), x \in KmpTexts(p) }]))
 =============================================================================
